@@ -277,7 +277,7 @@ func CheckReads(c *mc.Ctx, what string, db *dkv.DB, ref Ref, keys, prefixes []st
 		want, has := ref[k]
 		switch {
 		case err != nil && err != kv.ErrNotFound:
-			c.Failf("%s: Get(%q) error: %v", what, k, err)
+			c.FailSig("get-error:"+what, "%s: Get(%q) error: %v", what, k, err)
 		case err == kv.ErrNotFound || e.IsDelete():
 			if has {
 				c.FailSig("get-lost:"+what, "%s: Get(%q) reports absent/deleted, latest write is %s", what, k, want)
@@ -297,7 +297,7 @@ func CheckReads(c *mc.Ctx, what string, db *dkv.DB, ref Ref, keys, prefixes []st
 			got = append(got, fmt.Sprintf("%q=%s", e.Key(), e.Value()))
 		}
 		if err != nil {
-			c.Failf("%s: ScanPrefix(%q) error: %v", what, p, err)
+			c.FailSig("scan-error:"+what, "%s: ScanPrefix(%q) error: %v", what, p, err)
 		}
 		want := ref.Scan(p)
 		if fmt.Sprint(got) != fmt.Sprint(want) {
